@@ -12,7 +12,8 @@ StrVals == {[k |-> "str", toks |-> <<a>>] : a \in Tok} \cup {[k |-> "str", toks 
 Values == StrVals \cup {[k |-> "int"]}
 EvData == {[x \in {"_", "k1"} |-> IF x = "_" THEN [k |-> "null"] ELSE v] : v \in Values}
           \cup {[x \in {"_", "k1", "k2"} |-> IF x = "_" THEN [k |-> "null"] ELSE IF x = "k1" THEN v ELSE w] : v \in {[k |-> "str", toks |-> <<a>>] : a \in Tok}, w \in {[k |-> "str", toks |-> <<a>>] : a \in Tok} \cup {[k |-> "int"]}}
-Rx == {[t |-> a.t, c |-> a.c, t2 |-> ""] : a \in Tok} \cup {[t |-> "", c |-> "l", t2 |-> ""]} \cup {[t |-> "t1", c |-> "l", t2 |-> "t2"]}
+Rx == {[t |-> a.t, c |-> a.c, t2 |-> "", opt |-> FALSE] : a \in Tok} \cup {[t |-> "", c |-> "l", t2 |-> "", opt |-> FALSE]} \cup {[t |-> "t1", c |-> "l", t2 |-> "t2", opt |-> FALSE]}
+      \cup {[t |-> "t1", c |-> "l", t2 |-> "", opt |-> TRUE]}
 Rules == [rx : Rx, ic : BOOLEAN, hs : BOOLEAN, sk : {<<>>, <<"k2">>, <<"k9", "k1">>}]
 Classes == [cls : Cats, rule : Rules]
 RECURSIVE SeqsUpTo(_, _)
